@@ -53,7 +53,7 @@ var mspecs = map[string]func(tier string) []*mc.MSpec{
 	"C13": mspecsC13,
 	"C04": mspecsAccess,
 	"C05": mspecsAccess,
-	"C06": mspecsAccess,
+	"C06": mspecsAccess9,
 	"C07": mspecsC08, // every request mix on one resource: each request answered exactly once
 	"C08": mspecsC08,
 	"C09": mspecsC09,
